@@ -21,8 +21,18 @@ type ndEvent struct {
 }
 
 type replayFile struct {
-	Harness string    `json:"harness"`
-	Nondet  []ndEvent `json:"nondet"`
+	Harness string         `json:"harness"`
+	Nondet  []ndEvent      `json:"nondet"`
+	Params  map[string]int `json:"params"`
+}
+
+// Param returns a bound chosen by the check's tier (gosym -params); natively the value recorded
+// in the replay file.
+func Param(name string, def int) int {
+	if v, ok := replay.Params[name]; ok {
+		return v
+	}
+	return def
 }
 
 var (
@@ -53,24 +63,24 @@ func next(kind string) uint64 {
 	return e.Value
 }
 
-func Byte() byte      { return byte(next("u8")) }
-func U8() uint8       { return uint8(next("u8")) }
-func U16() uint16     { return uint16(next("u16")) }
-func U32() uint32     { return uint32(next("u32")) }
-func U64() uint64     { return next("u64") }
-func Uint() uint      { return uint(next("u64")) }
-func I8() int8        { return int8(next("u8")) }
-func I16() int16      { return int16(next("u16")) }
-func I32() int32      { return int32(next("u32")) }
-func I64() int64      { return int64(next("u64")) }
-func Int() int        { return int(next("u64")) }
-func F32() float32    { return f32frombits(uint32(next("u32"))) }
-func F64() float64    { return f64frombits(next("u64")) }
-func Bool() bool      { return next("bool") != 0 }
-func Symbolic() bool  { return false }
-func Note(s string)   {}
-func Reach(s string)  {}
-func ExpectPanic()    { expectPanic = true }
+func Byte() byte          { return byte(next("u8")) }
+func U8() uint8           { return uint8(next("u8")) }
+func U16() uint16         { return uint16(next("u16")) }
+func U32() uint32         { return uint32(next("u32")) }
+func U64() uint64         { return next("u64") }
+func Uint() uint          { return uint(next("u64")) }
+func I8() int8            { return int8(next("u8")) }
+func I16() int16          { return int16(next("u16")) }
+func I32() int32          { return int32(next("u32")) }
+func I64() int64          { return int64(next("u64")) }
+func Int() int            { return int(next("u64")) }
+func F32() float32        { return f32frombits(uint32(next("u32"))) }
+func F64() float64        { return f64frombits(next("u64")) }
+func Bool() bool          { return next("bool") != 0 }
+func Symbolic() bool      { return false }
+func Note(s string)       {}
+func Reach(s string)      {}
+func ExpectPanic()        { expectPanic = true }
 func TrackWrites(on bool) {}
 
 // Observe records a buffer: under gosym its model value is stored with the path witness, natively
@@ -113,6 +123,9 @@ func Assert(b bool, msg string) {
 		panic(assertFailed{msg})
 	}
 }
+
+// EqualBytes is bytes.Equal (one conjunction term under gosym instead of a forking loop).
+func EqualBytes(a, b []byte) bool { return string(a) == string(b) }
 
 // SameBacking reports whether two byte slices share (part of) a backing array.
 func SameBacking(a, b []byte) bool {
